@@ -306,18 +306,21 @@ func (g *grpcClient) NewConn(
 	duplexCall.SetValidateResponse(conn.validateResponse)
 	if g.web {
 		conn.unmarshaler.web = true
-		conn.readTrailers = func(unmarshaler *grpcUnmarshaler, _ *duplexHTTPCall) http.Header {
-			return unmarshaler.WebTrailer()
+		conn.readTrailers = func(unmarshaler *grpcUnmarshaler, _ *duplexHTTPCall) (http.Header, error) {
+			return unmarshaler.WebTrailer(), nil
 		}
 	} else {
-		conn.readTrailers = func(_ *grpcUnmarshaler, call *duplexHTTPCall) http.Header {
+		conn.readTrailers = func(_ *grpcUnmarshaler, call *duplexHTTPCall) (http.Header, error) {
 			// To access HTTP trailers, we need to read the body to EOF. If there's
 			// more left of it than we're willing to drain, the trailers are out of
-			// reach - whatever net/http may happen to have seen already.
-			if drained, _ := discard(call); !drained {
-				return make(http.Header)
+			// reach - whatever net/http may happen to have seen already. If we can't
+			// drain it because the call has failed (its context ended, say), that's
+			// what the caller needs to hear, not that the trailers are missing.
+			drained, err := discard(call)
+			if !drained {
+				return make(http.Header), err
 			}
-			return call.ResponseTrailer()
+			return call.ResponseTrailer(), nil
 		}
 	}
 	return wrapClientConnWithCodedErrors(conn)
@@ -334,7 +337,7 @@ type grpcClientConn struct {
 	unmarshaler      grpcUnmarshaler
 	responseHeader   http.Header
 	responseTrailer  http.Header
-	readTrailers     func(*grpcUnmarshaler, *duplexHTTPCall) http.Header
+	readTrailers     func(*grpcUnmarshaler, *duplexHTTPCall) (http.Header, error)
 }
 
 func (cc *grpcClientConn) Spec() Spec {
@@ -369,10 +372,15 @@ func (cc *grpcClientConn) Receive(msg any) error {
 		return err
 	}
 	// See if the server sent an explicit error in the HTTP or gRPC-Web trailers.
-	mergeHeaders(
-		cc.responseTrailer,
-		cc.readTrailers(&cc.unmarshaler, cc.duplexCall),
-	)
+	trailer, trailerErr := cc.readTrailers(&cc.unmarshaler, cc.duplexCall)
+	if trailerErr != nil && !errors.Is(trailerErr, io.EOF) && errors.Is(err, io.EOF) {
+		// The body ended cleanly, but the call failed before we could get at the
+		// trailers: report why, rather than a missing status.
+		trailerErr = wrapIfUncoded(trailerErr)
+		cc.duplexCall.SetError(trailerErr)
+		return trailerErr
+	}
+	mergeHeaders(cc.responseTrailer, trailer)
 	serverErr := grpcErrorFromTrailer(cc.bufferPool, cc.protobuf, cc.responseTrailer)
 	if serverErr != nil && (errors.Is(err, io.EOF) || !errors.Is(serverErr, errTrailersWithoutGRPCStatus)) {
 		// We've either:
